@@ -252,14 +252,14 @@ func genDiagFrom(g *vlib.G) {
 						case "zero":
 							d = &mat.DiagDense{}
 						case "sized":
-							back = poisoned(l)
+							back = rpoisoned(l)
 							d = mat.NewDiagDense(l, back)
 						case "view": // the diagonal of an l×l window of a poisoned matrix: increment l+3
-							back = poisoned((l + 1) * (l + 2))
+							back = rpoisoned((l + 1) * (l + 2))
 							d = mat.NewDense(l+1, l+2, back).Slice(0, l, 1, 1+l).(*mat.Dense).DiagView().(*mat.DiagDense)
 							off, inc = 1, l+3
 						case "wrong":
-							back = poisoned(l + 1)
+							back = rpoisoned(l + 1)
 							d = mat.NewDiagDense(l+1, back)
 						}
 						tag := fmt.Sprintf("DiagFrom(%s %s) recv=%s", ka.name, fmtShape(r, c), state)
@@ -276,7 +276,7 @@ func genDiagFrom(g *vlib.G) {
 								if k >= off && (k-off)%inc == 0 && (k-off)/inc < l {
 									continue
 								}
-								if math.Float64bits(x) != math.Float64bits(vlib.Poison64(k)) {
+								if math.Float64bits(x) != math.Float64bits(rpoison(k)) {
 									return fmt.Sprintf("cell %d outside the receiver's diagonal was written (%s)", k, vlib.B64(x))
 								}
 							}
